@@ -3,10 +3,10 @@ PROP = {
     "technique": ("runtime monitors: (1) lattice run of the real LinearFeeFunction with per-call invariants; (2) real "
                   "TxPublisher driven block by block with a recording wallet that judges every transaction handed to "
                   "testmempoolaccept / publish against exact integer re-computation of fee, weight, dust and budget"),
-    "level_text": ("Fee function: 4e5 (quick) / 4e7 (thorough) generated (ending rate, conf target 0..3000, estimator "
+    "level_text": ("Fee function: 4e5 (quick) / 1e8 (thorough) generated (ending rate, conf target 0..3000, estimator "
                    "answer incl. below floor / above max / error, explicit start, block pattern) runs; after every "
                    "Increment/IncreaseFeeRate: never decreases, never above the ending rate, start >= relay floor, "
-                   "equals the ending rate from conf target 1 on. Publisher: 2.4e4 / 1e6 generated sweeps (1-4 inputs incl. "
+                   "equals the ending rate from conf target 1 on. Publisher: 2.4e4 / 3e6 generated sweeps (1-4 inputs incl. "
                    "second-level style required outputs, wallet top-ups through BudgetInputSet, aux extra output, scripted "
                    "mempool/publish answers, skipped/repeated heights, third-party/own spends); every tx handed to the "
                    "wallet: fee <= budget, fee*1000 <= MaxFeeRate*weight(signed tx), all inputs exactly once, no output "
@@ -36,9 +36,9 @@ PROP = {
                 "quick": {"cases": 200000, "oracle_ff_monotone_evals": 4000000, "oracle_ff_capped_evals": 4000000,
                           "oracle_ff_ceiling_evals": 800000, "oracle_ff_floor_evals": 60000,
                           "ff_runs_reaching_deadline": 140000},
-                "thorough": {"cases": 20000000, "oracle_ff_monotone_evals": 400000000,
-                             "oracle_ff_capped_evals": 400000000, "oracle_ff_ceiling_evals": 80000000,
-                             "oracle_ff_floor_evals": 6000000, "ff_runs_reaching_deadline": 14000000},
+                "thorough": {"cases": 50000000, "oracle_ff_monotone_evals": 1000000000,
+                             "oracle_ff_capped_evals": 1000000000, "oracle_ff_ceiling_evals": 200000000,
+                             "oracle_ff_floor_evals": 15000000, "ff_runs_reaching_deadline": 35000000},
             },
         },
         {
@@ -50,10 +50,10 @@ PROP = {
                           "oracle_pub_dust_evals": 40000, "oracle_pub_inputs_evals": 40000,
                           "oracle_pub_monotone_evals": 12000, "oracle_pub_ceiling_evals": 16000,
                           "pub_cases_with_replacement": 3000, "pub_with_wallet_topup": 1100},
-                "thorough": {"cases": 500000, "oracle_pub_budget_evals": 1700000, "oracle_pub_maxrate_evals": 1700000,
-                             "oracle_pub_dust_evals": 1700000, "oracle_pub_inputs_evals": 1700000,
-                             "oracle_pub_monotone_evals": 500000, "oracle_pub_ceiling_evals": 650000,
-                             "pub_cases_with_replacement": 120000, "pub_with_wallet_topup": 45000},
+                "thorough": {"cases": 1500000, "oracle_pub_budget_evals": 5000000, "oracle_pub_maxrate_evals": 5000000,
+                             "oracle_pub_dust_evals": 5000000, "oracle_pub_inputs_evals": 5000000,
+                             "oracle_pub_monotone_evals": 1500000, "oracle_pub_ceiling_evals": 2000000,
+                             "pub_cases_with_replacement": 360000, "pub_with_wallet_topup": 135000},
             },
         },
     ],
